@@ -130,7 +130,7 @@ check(
     "C14",
     "trace monitor on the component-pick probability vectors seen at the Generator interface + measured mass shares with a variance-derived tolerance band (bounded restatement of convergence)",
     "For multi-component systems with light and heavy molecules the constant pick vector p* and the measured mean molecule masses give the asymptotic mass "
-    "share implied by the selection law, compared with the fractions that were WRITTEN (every number spelling); measured shares are compared within max(6.5 sigma, 3 m_max/M) and re-confirmed; systems of equal-mass isomers (incl. 0 % components) decide the clause without reference to the known finding, through the iterator and through System.generate.",
+    "share implied by the selection law, compared with the fractions that were WRITTEN (every number spelling); measured shares are compared within max(6.5 sigma, 3 m_max/M) and re-confirmed; systems of equal-mass isomers (incl. 0 % components) decide the clause without reference to the known finding, through the iterator and through System.generate, with ensembles of up to 60000 (quick) / 150000 (thorough) molecules so that a composition frozen after an internal batch of picks is outside the band.",
     "The limit statement is restated as a finite-mass band. On the pinned tree the per-molecule pick law is a recorded known finding; any other deviation is reported.",
     "DESIGN.md section 3, C14",
 )
@@ -138,7 +138,7 @@ check(
 check(
     "C15",
     "fault-injection style workload (one structural rule broken per probe) with an exception-vs-object oracle; termination decided by a logical line budget counted with sys.monitoring",
-    "Twenty breaking operators (incl. misuse of the call interface: wrong / complete / two-descriptor prefixes handed to Stochastic.generate and SmilesToken.generate) are applied at random positions of valid instances of all archetypes; each probe must be answered with an error at "
+    "Twenty-one breaking operators (incl. misuse of the call interface: wrong / complete / two-descriptor prefixes handed to Stochastic.generate and SmilesToken.generate, and objects with a non-empty left terminal -- elements of parsed molecules and of Molecule.gen_mirror() -- generated without prefix) are applied at random positions of valid instances of all archetypes; each probe must be answered with an error at "
     "construction, or be non-generable and raise on generate, or raise on generate, as the rule demands. Byte-level mutants of valid strings are parsed by "
     "all five constructors under a budget of executed library lines (100x the valid string's count + 50000), which decides termination without wall clock.",
     "Held on the probes made. Any exception type counts as rejection; operators are constructed so that the broken string violates the stated rule.",
@@ -170,13 +170,13 @@ check(
     "Schulz-Zimm molecules of all archetypes are turned into stochastic atom graphs and generated under random streams and under all choice sequences of "
     "bounded graphs; each result must be one connected sanitisable molecule whose nodes partition into whole residues (all atoms and static bonds of the "
     "token), whose inter-residue bonds have a non-static template edge of the same order, and whose residues form a tree; equal seeds give equal molecules.",
-    "Held on the molecules observed. Graphs without a start node are outside the quantifier; draws that raise (C11 finding) are skipped.",
+    "Held on the molecules observed. Whether a refused graph has a start node is decided by the harness's own search over the input graph (graphs without one are outside the quantifier; an archetype whose only start node lies outside the first written token is part of the workload); draws that raise (C11 finding) are skipped.",
     "DESIGN.md section 3, C18",
 )
 check(
     "C19",
     "differential runtime oracle: get_ensemble_prob on harness-assembled chains (and random atom renumberings, and non-members) against closed-form interval probabilities x the reference model's exact path probability",
-    "For linear chains of one directed unit per block (1-3 blocks, prefix or end-group start, all families) every chain length up to a bound is queried and "
+    "For linear chains of one directed unit per block (1-3 blocks, prefix or end-group start, all families, isotope-labelled units included) every chain length up to a bound is queried and "
     "compared with the probability that generation produces that molecule; sums over lengths, non-members (must be 0) and atom-order independence are "
     "checked; each query runs under a logical line budget. Deviations are classified as listed findings only when the value equals what the listed mechanism (or a composition of listed mechanisms) predicts exactly.",
     "Held on the queries decided. Trusts gbv/ref/dist.py and gbv/ref/model.py; for Schulz-Zimm the documented density on integer masses is summed.",
